@@ -383,6 +383,7 @@ fn check_program(ctx: &Ctx, cfg: &Config, label: &str, raw: &Project, both_polic
             ),
         }
         if v.p {
+            ctx.stat(&format!("sources_expected, first sink: {}", v.p_sink_kind), 1);
             ctx.stat("sources_expected", 1);
         }
         if v.p != v.l {
